@@ -260,6 +260,19 @@ class _Obs(object):
         self.world().on_callback(self.oid, 2, notification)
 
 
+class _EqObs(_Obs):
+    """a sender that compares equal to every other sender of its kind (like two libs with the same contents)"""
+
+    def __eq__(self, other):
+        return isinstance(other, _EqObs)
+
+    def __ne__(self, other):
+        return not self.__eq__(other)
+
+    def __hash__(self):
+        return id(self)
+
+
 def _nname(n):
     return None if n is None else "N%d" % n
 
@@ -267,17 +280,19 @@ def _nname(n):
 class World(object):
     def __init__(self, via_base):
         from defcon.tools.notifications import NotificationCenter
-        from defcon.objects.base import BaseObject
+        from defcon.objects.base import BaseObject, BaseDictObject
         self.center = NotificationCenter()
         self.via_base = via_base
         self.objs = {}
         for s in SENDERS:
             if via_base:
-                b = BaseObject()
+                # every other sender is dict-like, as defcon's Lib / Kerning / Groups / Image are: all of them are EQUAL
+                # (empty dicts) and still different objects, which the centre must keep apart
+                b = BaseDictObject() if s % 2 else BaseObject()
                 b._dispatcher = weakref.ref(self.center)
                 b.sid = s
             else:
-                b = _Obs(s, self)
+                b = _EqObs(s, self) if s % 2 else _Obs(s, self)
             self.objs[s] = b
         for o in OBSERVERS:
             self.objs[o] = _Obs(o, self)
